@@ -83,6 +83,8 @@ type Exec struct {
 	// inCrashSettle: the op's post-state is being reconstructed after a crash
 	inCrashSettle bool
 	lastWant      string
+	// OpHitCapacity: the current op failed with a legitimate backend capacity error
+	OpHitCapacity bool
 	// RecordObs: keep a backend-independent log of what each operation returned (E-DIFF)
 	RecordObs bool
 	Obs       []string
@@ -389,6 +391,7 @@ func (e *Exec) judge(err error, want string, okProps []string, what string) outc
 	}
 	if IsBackendCapacity(err) {
 		e.probe("backend-capacity-error")
+		e.OpHitCapacity = true
 		return outCapacity
 	}
 	switch want {
@@ -590,6 +593,7 @@ func (e *Exec) collFeatures(name string) map[string]string {
 	if c := e.M.Colls[name]; c != nil {
 		if len(c.Indexes) > 0 {
 			f["indexed"] = "1"
+			f["indexes"] = fmt.Sprint(len(c.Indexes))
 		} else {
 			f["indexed"] = "0"
 		}
@@ -652,7 +656,11 @@ func (e *Exec) queryFeatures(q *model.Query) map[string]string {
 
 func idxProps(base []string, feats map[string]string) []string {
 	if feats["indexed"] == "1" {
-		return append(append([]string{}, base...), "C02")
+		out := append(append([]string{}, base...), "C02")
+		if feats["indexes"] != "" && feats["indexes"] != "1" {
+			out = append(out, "C14") // several indexes: results through one must not depend on the others
+		}
+		return out
 	}
 	return base
 }
@@ -810,6 +818,7 @@ func clip(s []string) []string {
 // It returns false when the run must stop (violation).
 func (e *Exec) Step(i int, op *Op) bool {
 	e.opIdx, e.cur = i, op
+	e.OpHitCapacity = false
 	e.Stats.Ops[op.K]++
 	if len(op.Colls) > 0 {
 		e.stepTwins(op)
